@@ -44,6 +44,19 @@ class _CompoundLatency(LatencyDistribution):
         return Duration.from_seconds(base_dur.to_seconds() + extra_dur.to_seconds())
 
 
+def _remove_latency_layer(link, layer: _CompoundLatency) -> None:
+    """Take one injected layer out of the link's latency chain, keeping the others."""
+    if link.latency is layer:
+        link.latency = layer._base
+        return
+    outer = link.latency
+    while isinstance(outer, _CompoundLatency):
+        if outer._base is layer:
+            outer._base = layer._base
+            return
+        outer = outer._base
+
+
 @dataclass(frozen=True)
 class InjectLatency:
     """Add extra latency to a network link for a time window.
@@ -75,13 +88,16 @@ class InjectLatency:
         if link is None:
             raise ValueError(f"No link found: {self.source_name} -> {self.dest_name}")
 
-        original_latency = link.latency
         extra_dist = ConstantLatency(self.extra_ms / 1000.0)
         src = self.source_name
         dst = self.dest_name
+        layer: _CompoundLatency | None = None
 
         def activate(e: Event) -> None:
-            link.latency = _CompoundLatency(original_latency, extra_dist)
+            nonlocal layer
+            # Layer on top of whatever is installed now (other faults may be active)
+            layer = _CompoundLatency(link.latency, extra_dist)
+            link.latency = layer
             logger.info(
                 "[FaultInjection] Injected +%sms latency on %s -> %s at %s",
                 self.extra_ms,
@@ -91,7 +107,8 @@ class InjectLatency:
             )
 
         def deactivate(e: Event) -> None:
-            link.latency = original_latency
+            if layer is not None:
+                _remove_latency_layer(link, layer)
             logger.info(
                 "[FaultInjection] Restored latency on %s -> %s at %s",
                 src,
